@@ -800,11 +800,9 @@ func zzFreshOutcome(s *State, a []Value) Value {
 		s.abort("zzParseOutcome is not defined by the harness")
 	}
 	st := w.P.NewState(w)
-	for k, v := range s.holes {
-		if !strings.HasPrefix(k, "in:") && !strings.HasPrefix(k, "ax:") {
-			st.holes[k] = v
-		}
-	}
+	// numeral holes are not carried over: in the fresh state the numerals are
+	// the concrete texts, so that Parse cannot fork there (its outcome - accepted
+	// or which error - does not depend on the value of an in-range numeral)
 	st.pushCall(&FuncV{Fn: fn}, []Value{a[0], a[1]}, -1, false)
 	nf := st.frames[len(st.frames)-1]
 	nf.nested = true
